@@ -1204,6 +1204,7 @@ class Evaluator:
         if isinstance(c, Cls):
             return self.construct(c, pos, kw, dstar, ctx, t)
         if isinstance(c, Lib):
+            self.overwrite_effects(c.dotted, pos, kw, ctx, t)
             return nptable.call_lib(self, c.dotted, pos, kw, ctx, t), None, {}
         if isinstance(c, tuple):
             if c[0] == 'bound':
@@ -1224,6 +1225,18 @@ class Evaluator:
             if c[0] == 'libmethod':
                 return nptable.call_lib(self, c[1], [c[2]] + list(pos), kw, ctx, t), None, {}
         return unknown_result(pos, kw, dstar), None, {}
+
+    OVERWRITE_KW = {'overwrite_a': 0, 'overwrite_b': 1, 'overwrite_x': 0, 'overwrite_input': 0, 'overwrite_ab': 0, 'overwrite_data': 0}
+
+    def overwrite_effects(self, name, pos, kw, ctx, t):
+        """scipy / numpy `overwrite_*=True` options let the library destroy the argument: an in-place effect on it (also
+        reported when the value is not a literal True: it may be)"""
+        for k, idx in self.OVERWRITE_KW.items():
+            v = kw.get(k)
+            if v is None or self.truth(v) is False:
+                continue
+            if idx < len(pos):
+                ctx.effects.append((('lib', f'{name}({k}=True)', t), pos[idx], UNKNOWN))
 
     def bind_args(self, fn, pos, kw, dstar, ctx):
         """map call arguments to parameters; unknown/default handled; returns dict or None"""
@@ -1303,7 +1316,7 @@ class Evaluator:
             g.prog, g.fn = self.prog, pf
             g.events, g.loops, g.params, g.unknown_stmts = [], [], {}, []
             g._guards, g._loops, g._seq, g.closure_env, g.self_name, g.shape_decl = [], [], 0, {}, None, {}
-            g.cur_fn, g._inline_stack, g.inlined = pf, [], []
+            g.cur_fn, g._inline_stack, g.inlined, g._inline_exits = pf, [], [], []
             term = g.expr(node, {})
             dummy = Ctx(self, pf, g, {}, None)
             v = self.eval(term, dummy)
